@@ -162,41 +162,101 @@ pub fn layout_packets() -> Vec<RefPacket> {
     out
 }
 
-pub fn run(ctx: &Ctx) {
-    ctx.set_rule("every enumerated byte string is parsed; when accepted, the parsed packet is serialised plain and compressed, each output parsed again and all observations compared field by field. Sources: (i) 5000 reference packets over 10 names (incl. case variants) x 5 record kinds in every valid compression layout (pointer-to-pointer included), (ii) all 65536 flag words with and without an OPT record, (iii) every type code with empty RDATA, unknown types and classes of content, OPT at every index, the packet spaces of C02, (iv) the malformed-input generators of C01 (prefix trees, cut/perturb, pointer graphs). non-trivial = the parser accepted the input");
-    ctx.assume("observable equality is equality of every public field and accessor (flags, opcode, rcode, EDNS data, every record field); information the library does not expose (OPT flag bits, reserved opcode numbers) is not compared");
-    // (i) compression layouts
-    let lp = layout_packets();
+/// Every record type that carries a name anywhere in its RDATA (compressible per RFC 1035, or
+/// not: a foreign encoder may compress them anyway and the parser has to resume after the
+/// name's in-place bytes), over a 4-name alphabet, for the layout enumeration.
+pub fn layout_packets_all_kinds() -> Vec<RefPacket> {
+    let names = vec![RefName::root(), RefName::txt("a"), RefName::txt("b.a"), RefName::txt("A.a")];
+    let mut out = Vec::new();
+    for sch in SCHEMAS {
+        let has_name = sch.fields.iter().any(|(_, k)| matches!(k, schema::Kind::Name(_) | schema::Kind::Gateway));
+        if !has_name || [2u16, 15, 6, 33, 47].contains(&sch.code) {
+            continue;
+        }
+        for q in &names {
+            for o in &names {
+                for r in &names {
+                    let mut p = RefPacket { id: 4, flags: F_QR, ..Default::default() };
+                    p.questions.push(RefQ { name: q.clone(), qtype: 1, qclass: 1, unicast: false });
+                    p.answers.push(RefRR { name: o.clone(), class: 1, cache_flush: false, ttl: 5, rdata: gen::rdata_with_names(sch.code, &[r.clone(), q.clone()]) });
+                    p.additional.push(RefRR { name: r.clone(), class: 1, cache_flush: false, ttl: 6, rdata: typed(1, vec![schema::Val::U32(1)]) });
+                    out.push(p);
+                }
+            }
+        }
+    }
+    out
+}
+
+/// All layout byte strings of both packet families (shared with C05 and C06).
+pub fn for_each_layout(ctx: &Ctx, cap: usize, f: &(dyn Fn(&[u8], &mut Tally) + Sync)) -> (u64, bool) {
+    let mut lp = layout_packets();
+    lp.extend(layout_packets_all_kinds());
     let capped = std::sync::atomic::AtomicBool::new(false);
     let total = std::sync::atomic::AtomicU64::new(0);
     let chunks: Vec<&[RefPacket]> = lp.chunks(16).collect();
     par_shards(ctx, &chunks, |ps, t: &mut Tally| {
         for p in ps.iter() {
-            let (ls, c) = layouts(p, 20000);
+            let (ls, c) = layouts(p, cap);
             if c {
                 capped.store(true, std::sync::atomic::Ordering::Relaxed);
             }
             total.fetch_add(ls.len() as u64, std::sync::atomic::Ordering::Relaxed);
             for b in &ls {
-                t.evals += 1;
-                let (f, acc) = check_bytes(b);
-                if acc {
-                    t.nontrivial += 1;
-                }
-                t.outcome(if !acc { "rejected" } else if f.is_empty() { "stable" } else { "altered" });
-                if !f.is_empty() {
-                    ctx.violations(f);
-                }
+                f(b, t);
             }
         }
     });
-    if capped.load(std::sync::atomic::Ordering::Relaxed) {
+    (total.load(std::sync::atomic::Ordering::Relaxed), capped.load(std::sync::atomic::Ordering::Relaxed))
+}
+
+pub fn run(ctx: &Ctx) {
+    ctx.set_rule("every enumerated byte string is parsed; when accepted, the parsed packet is serialised plain and compressed, each output parsed again and all observations compared field by field. Sources: (i) 5000 reference packets over 10 names (incl. case variants) x 5 record kinds in every valid compression layout (pointer-to-pointer included), (ii) all 65536 flag words with and without an OPT record, (iii) every type code with empty RDATA, unknown types and classes of content, OPT at every index, the packet spaces of C02, (iv) the malformed-input generators of C01 (prefix trees, cut/perturb, pointer graphs). non-trivial = the parser accepted the input");
+    ctx.assume("observable equality is equality of every public field and accessor (flags, opcode, rcode, EDNS data, every record field); information the library does not expose (OPT flag bits, reserved opcode numbers) is not compared");
+    // (i) compression layouts
+    let lp = layout_packets();
+    let (total, capped) = for_each_layout(ctx, 20000, &|b, t| {
+        t.evals += 1;
+        let (f, acc) = check_bytes(b);
+        if acc {
+            t.nontrivial += 1;
+        }
+        t.outcome(if !acc { "rejected" } else if f.is_empty() { "stable" } else { "altered" });
+        if !f.is_empty() {
+            ctx.violations(f);
+        }
+    });
+    if capped {
         ctx.cap_hit("layout enumeration capped at 20000 layouts for some packet");
     }
-    ctx.space("compression layouts: 5 record kinds x 10^3 name assignments, every valid layout of every name occurrence", total.load(std::sync::atomic::Ordering::Relaxed), "complete");
+    ctx.space("compression layouts: 5 record kinds x 10^3 name assignments and every other name-bearing record type x 4^3 name assignments, every valid layout of every name occurrence", total, "complete");
     if let Some(p) = lp.get(700) {
         let (ls, _) = layouts(p, 50);
         ctx.sample(json!({"kind": "bytes", "msg": hex(ls.last().unwrap()), "note": "one compression layout of a reference packet"}));
+    }
+    // (ii-b) every 12-bit response code: extended byte 0..=255 x header nibble 0..=15, under 3 flag settings
+    {
+        let mut t = Tally::default();
+        let mut n = 0u64;
+        for ext in 0..=255u8 {
+            for nib in 0..16u8 {
+                for hi in [0x80u8, 0x84, 0x01] {
+                    let m = vec![0x12, 0x34, hi, nib, 0, 0, 0, 0, 0, 0, 0, 1, 0, 0, 41, 0x04, 0xd0, ext, 0, 0, 0, 0, 0];
+                    t.evals += 1;
+                    n += 1;
+                    let (f, acc) = check_bytes(&m);
+                    if acc {
+                        t.nontrivial += 1;
+                    }
+                    t.outcome(if !acc { "rejected" } else if f.is_empty() { "stable" } else { "altered" });
+                    if !f.is_empty() {
+                        ctx.violations(f);
+                    }
+                }
+            }
+        }
+        ctx.merge(t);
+        ctx.space("every 12-bit response code: OPT extended byte 0..=255 x header RCODE nibble 0..=15 x 3 flag settings", n, "complete");
     }
     // (ii) all flag words, with and without OPT
     let words: Vec<u16> = (0..=65535u16).collect();
